@@ -56,6 +56,8 @@ type val struct {
 	off   int    // slice window into elems
 	n     int
 	st    string
+	io    *ioBuf // kIO: a caller-owned I/O buffer (reference semantics)
+	stPkg bool   // kStatus: declared by the package (not base)
 }
 
 func intVal(x int64) *val    { return &val{kind: kInt, i: big.NewInt(x)} }
@@ -91,6 +93,8 @@ func (v *val) String() string {
 		return fmt.Sprintf("array[%d]", len(v.elems))
 	case kSlice:
 		return fmt.Sprintf("slice[%d]", v.n)
+	case kIO:
+		return fmt.Sprintf("io[%d..%d/%d]", v.io.ri, v.io.wi, len(v.io.data))
 	}
 	return "status:" + v.st
 }
@@ -99,6 +103,9 @@ type frame struct {
 	fn     *a.Func
 	locals map[t.ID]*val
 	args   map[t.ID]*val
+	// argExprs: the call-site arguments of a nested coroutine call, evaluated
+	// again when the coroutine is resumed (see suspend).
+	argExprs []*a.Node
 }
 
 type interp struct {
@@ -118,6 +125,11 @@ type interp struct {
 	// monitoring, no observer; anything that cannot be evaluated aborts the
 	// evaluation of that fact only.
 	quiet bool
+	// coroutines (coro.go)
+	active       *coroutine
+	inCoro       int
+	suspensions  int
+	nextArgExprs []*a.Node
 }
 
 type quietAbort struct{ why string }
@@ -306,6 +318,16 @@ func (in *interp) index(n *a.Expr, base, idx *val) *val {
 
 func (in *interp) eval(n *a.Expr) *val {
 	in.tick()
+	if typ := n.MType(); typ != nil && typ.IsStatus() && (n.Operator() == 0 || n.Operator() == t.IDDot) {
+		if id := n.Ident(); id == t.IDOk {
+			return statusVal("")
+		} else if id.IsDQStrLiteral(in.tm) {
+			s := id.Str(in.tm)
+			v := statusVal(s[1 : len(s)-1])
+			v.stPkg = n.Operator() == 0
+			return v
+		}
+	}
 	if cv := n.ConstValue(); cv != nil {
 		if typ := n.MType(); typ != nil && typ.IsBool() {
 			return boolVal(cv.Sign() != 0)
@@ -585,9 +607,21 @@ func (in *interp) evalCall(n *a.Expr) *val {
 			c.copyFrom(v)
 			argv[arg.Name()] = c
 		}
+		if fn.Effect().Coroutine() {
+			in.nextArgExprs = args
+			st := in.call(fn, argv, true)
+			if isError(st) {
+				// an error from a `?` call is returned by the caller too
+				panic(retSignal{st})
+			}
+			return nil
+		}
 		return in.call(fn, argv, true)
 	}
 	r := in.eval(recv)
+	if r.kind == kIO {
+		return in.ioCall(n, recv, r, name, args)
+	}
 	arg := func(i int) *val {
 		if i >= len(args) {
 			unsup("arity of %s", name)
@@ -636,8 +670,10 @@ func (in *interp) evalCall(n *a.Expr) *val {
 // claims to have proven they fit); public entry points are called with values
 // the harness already drew inside the parameter types.
 func (in *interp) call(fn *a.Func, argv map[t.ID]*val, checkArgs bool) (ret *val) {
-	if fn.Effect().Coroutine() {
-		unsup("coroutine %s", fn.FuncName().Str(in.tm))
+	argExprs := in.nextArgExprs
+	in.nextArgExprs = nil
+	if fn.Effect().Coroutine() && in.inCoro == 0 {
+		unsup("coroutine %s called outside the simulated caller", fn.FuncName().Str(in.tm))
 	}
 	in.depth++
 	if in.depth > 64 {
@@ -645,6 +681,9 @@ func (in *interp) call(fn *a.Func, argv map[t.ID]*val, checkArgs bool) (ret *val
 	}
 	defer func() { in.depth-- }()
 	f := &frame{fn: fn, locals: map[t.ID]*val{}, args: map[t.ID]*val{}}
+	if fn.Effect().Coroutine() {
+		f.argExprs = argExprs
+	}
 	for _, o := range fn.In().Fields() {
 		fld := o.AsField()
 		v, ok := argv[fld.Name()]
@@ -671,6 +710,9 @@ func (in *interp) call(fn *a.Func, argv map[t.ID]*val, checkArgs bool) (ret *val
 		}
 	}()
 	in.block(fn, fn.Body())
+	if fn.Effect().Coroutine() {
+		return statusVal("")
+	}
 	if fn.Out() != nil {
 		return in.zero(fn.Out())
 	}
@@ -727,7 +769,12 @@ func (in *interp) stmt(fn *a.Func, o *a.Node) {
 	case a.KRet:
 		r := o.AsRet()
 		if r.Keyword() != t.IDReturn {
-			unsup("yield")
+			st := in.eval(r.Value())
+			if st == nil || st.kind != kStatus {
+				unsup("yield of a non-status")
+			}
+			in.suspend(st)
+			return
 		}
 		var v *val
 		if r.Value() != nil {
